@@ -121,6 +121,10 @@ def build(spec):
         o["el_equal_baseline"] = True  # many exact ties in the weights -> non-unique medians do occur
     el, feed, status, call = cases_mod.build(spec["seed"], PROPERTY, i, o)
     call["model_parameters"].pop("lambda_", None)
+    if i % 3 == 1:
+        # a ridge penalty must leave the covariate-free model alone: there is no coefficient besides the (never
+        # penalised) intercept, the swing stays the weighted median
+        call["model_parameters"]["lambda_"] = float(gen.choice(rng, [0.5, 10.0, 1000.0]))
     if i % 7 == 0:
         # one dominant unit
         j = int(rng.integers(0, len(el.pre)))
@@ -225,6 +229,12 @@ def checker(el, feed, call, res, client):
                 frac = abs((float(raw) % 1.0) - 0.5)
                 if abs(got - want) <= 1 and frac < 1e-6 and partial < raw:
                     cnt["rounding_ties"] = cnt.get("rounding_ties", 0) + 1
+                    continue
+                if call["model_parameters"].get("lambda_", 0) > 0 and abs(got - want) <= 1 + 2e-4 * float(w):
+                    # lambda_ > 0 sends the fit to the conic solver, which returns the median only up to its
+                    # accuracy (seen on the unchanged tree: swing off by 2e-5, one vote on a unit of 8 500): the
+                    # statement equates the model with the weighted median, not the solver's last digits
+                    cnt["within_conic_solver_accuracy"] = cnt.get("within_conic_solver_accuracy", 0) + 1
                     continue
                 out.append(dict(key=f"C05/{call['pi_method']}/prediction-not-uniform-swing",
                                 msg=f"unit {u['geographic_unit_fips']} pred_{e}={got} but weighted median m={float(m)} "
